@@ -28,6 +28,9 @@ fn lt(a: (f64, u8), b: (f64, u8)) -> bool { a.0 < b.0 || (a.0 == b.0 && a.1 < b.
 /// structural invariant of the anchor: level-0 chain strictly increasing in (score, member), length == |chain|,
 /// every higher level a subsequence of level 0 that is itself increasing, `level` = highest non-empty level
 fn check_structure(sl: &SkipList<u8, f64>, expect_len: usize) {
+    // every walk in this checker is bounded by BOUND steps explicitly (CBMC would otherwise unwind pointer chases up to the
+    // global bound that the `vec![None; 32]` fills force); reaching the bound is itself an assertion failure
+    const BOUND: usize = 4;
     let inner = sl.inner.read().unwrap();
     assert!(inner.length == expect_len, "length equals the number of members");
     unsafe {
@@ -35,34 +38,47 @@ fn check_structure(sl: &SkipList<u8, f64>, expect_len: usize) {
         let mut n = 0usize;
         let mut cur = (&(*inner.head).forward)[0];
         let mut prev: Option<(f64, u8)> = None;
-        while let Some(p) = cur {
+        let mut steps = 0;
+        while steps < BOUND {
+            let p = match cur { Some(p) => p, None => break };
             let here = ((*p).value, (*p).key);
             if let Some(pv) = prev { assert!(lt(pv, here), "level-0 chain is strictly increasing in (score, member)"); }
             prev = Some(here);
             n += 1;
             cur = (&(*p).forward)[0];
+            steps += 1;
         }
+        assert!(cur.is_none(), "level-0 chain ends (no cycle, no extra nodes)");
         assert!(n == expect_len, "level-0 chain holds exactly the members");
         // level 1: increasing and every node reachable on level 0 (a subsequence)
         let mut cur1 = (&(*inner.head).forward)[1];
         let mut prev1: Option<(f64, u8)> = None;
-        while let Some(p) = cur1 {
+        let mut steps1 = 0;
+        while steps1 < BOUND {
+            let p = match cur1 { Some(p) => p, None => break };
             let here = ((*p).value, (*p).key);
             if let Some(pv) = prev1 { assert!(lt(pv, here), "level-1 chain is increasing"); }
             prev1 = Some(here);
             let mut c0 = (&(*inner.head).forward)[0];
             let mut found = false;
-            while let Some(q) = c0 { if q == p { found = true; } c0 = (&(*q).forward)[0]; }
+            let mut s0 = 0;
+            while s0 < BOUND {
+                let q = match c0 { Some(q) => q, None => break };
+                if q == p { found = true; }
+                c0 = (&(*q).forward)[0];
+                s0 += 1;
+            }
             assert!(found, "a level-1 node is on the level-0 chain");
-            cur1 = (&(*p).forward)[1];
+            cur1 = if (*p).forward.len() > 1 { (&(*p).forward)[1] } else { None };
+            steps1 += 1;
         }
+        assert!(cur1.is_none(), "level-1 chain ends");
         assert!(inner.level <= 1, "list level is bounded by the tallest tower");
         if inner.level == 1 { assert!((&(*inner.head).forward)[1].is_some(), "list level names a non-empty level"); }
     }
 }
 
-/// rank / range answers agree with the sorted reference
-fn check_queries(sl: &SkipList<u8, f64>, sorted: &[(f64, u8)]) {
+fn check_ranks(sl: &SkipList<u8, f64>, sorted: &[(f64, u8)]) {
     let n = sorted.len();
     let mut i = 0;
     while i < n {
@@ -71,6 +87,9 @@ fn check_queries(sl: &SkipList<u8, f64>, sorted: &[(f64, u8)]) {
         i += 1;
     }
     assert!(sl.get_by_rank(n).is_none(), "get_by_rank past the end is None");
+}
+fn check_queries(sl: &SkipList<u8, f64>, sorted: &[(f64, u8)]) {
+    let n = sorted.len();
     let (a, b): (usize, usize) = (kani::any(), kani::any());
     kani::assume(a <= 3 && b <= 3);
     let r = sl.range_by_rank(a, b);
@@ -106,14 +125,30 @@ fn two_inserts_then_remove(h1: usize, h2: usize, remove_which: usize) {
     kani::cover!(s1 == s2, "equal scores reachable");
     check_structure(&sl, 2);
     let both = sort2((s1, m1), (s2, m2));
-    check_queries(&sl, &both);
+    check_ranks(&sl, &both);
     let (rm, rs, keep) = if remove_which == 0 { (m1, s1, (s2, m2)) } else { (m2, s2, (s1, m1)) };
     {
         let mut g = sl.inner.write().unwrap();
         sl.remove_node_by_score(&mut g, &rm, &rs);
     }
     check_structure(&sl, 1);
-    check_queries(&sl, &[keep]);
+    check_ranks(&sl, &[keep]);
+    std::mem::forget(sl);
+}
+
+fn two_inserts_then_queries(h1: usize, h2: usize) {
+    unsafe { LEVELS = [h1, h2, 0, 0]; NEXT_LEVEL = 0; }
+    let sl: SkipList<u8, f64> = SkipList::new();
+    let (m1, m2): (u8, u8) = (kani::any(), kani::any());
+    kani::assume(m1 != m2);
+    let (s1, s2) = (any_score(), any_score());
+    {
+        let mut g = sl.inner.write().unwrap();
+        sl.insert_new_node(&mut g, m1, s1);
+        sl.insert_new_node(&mut g, m2, s2);
+    }
+    let both = sort2((s1, m1), (s2, m2));
+    check_queries(&sl, &both);
     std::mem::forget(sl);
 }
 
@@ -127,6 +162,19 @@ macro_rules! inst {
         fn $name() { two_inserts_then_remove($h1, $h2, $w); }
     };
 }
+macro_rules! qinst {
+    ($name:ident, $h1:expr, $h2:expr) => {
+        #[kani::proof]
+        #[kani::unwind(34)]
+        #[kani::stub(rand::thread_rng, stub_thread_rng)]
+        #[kani::stub(SkipList::random_level, stub_random_level)]
+        #[kani::stub(std::collections::hash_map::RandomState::new, stub_random_state)]
+        fn $name() { two_inserts_then_queries($h1, $h2); }
+    };
+}
+qinst!(skiplist_2ins_queries_h00, 0, 0);
+qinst!(skiplist_2ins_queries_h01, 0, 1);
+qinst!(skiplist_2ins_queries_h10, 1, 0);
 inst!(skiplist_2ins_rm_h00_first, 0, 0, 0);
 inst!(skiplist_2ins_rm_h00_second, 0, 0, 1);
 inst!(skiplist_2ins_rm_h01_first, 0, 1, 0);
